@@ -1,6 +1,7 @@
 package vc
 
 import (
+	"golang.org/x/tools/go/ssa"
 	"fmt"
 	"go/token"
 	"net/textproto"
@@ -613,6 +614,35 @@ func (ec *evalCtx) callSpec(x *spec.Call) Val {
 			}
 			return Val{T: smt.False}
 		}
+	case "before":
+		// before(e): e in the state just before the loop under contract was entered
+		li := fc.specLoop
+		if li == nil || li.preState == nil {
+			ec.fail("before: only meaningful in the contract of a loop")
+		}
+		n := *ec
+		n.cur = li.preState
+		return n.eval(x.Args[0])
+	case "iterated":
+		// iterated(k): key k has been produced by the map iteration of the loop under contract
+		li := fc.specLoop
+		if li == nil {
+			ec.fail("iterated: only meaningful in the contract of a loop that ranges over a map")
+		}
+		var it *iterInfo
+		for _, in := range li.header.Instrs {
+			if nx, ok := in.(*ssa.Next); ok {
+				if r, ok := nx.Iter.(*ssa.Range); ok {
+					it = fc.iters[r]
+				}
+			}
+		}
+		if it == nil {
+			ec.fail("iterated: the loop does not range over a modelled map")
+		}
+		_, _, ks, _, _ := fc.mapKeys(it.mt)
+		k := ec.scalar(ec.eval(x.Args[0]), x)
+		return Val{T: smt.Select(fc.readKey(ec.cur, it.visKey, it.ref, smt.Arr(ks, smt.Bool)), k)}
 	case "islit":
 		// islit(x, "text"): decided statically when x is a string literal, else the equality
 		v := ec.scalar(ec.eval(x.Args[0]), x)
@@ -656,11 +686,13 @@ func (ec *evalCtx) callSpec(x *spec.Call) Val {
 		// cast(x, "Go type"): view a reference as a value of the given Go type (e.g. a map)
 		v := ec.eval(x.Args[0])
 		tstr := x.Args[1].(*spec.StrLit).Val
-		tv, err := types.Eval(fc.P.Prog.Fset, fc.Pkg, token.NoPos, tstr)
-		if err != nil {
+		var ty types.Type
+		if tv, err := types.Eval(fc.P.Prog.Fset, fc.Pkg, token.NoPos, tstr); err == nil {
+			ty = tv.Type
+		} else if ty = fc.P.goTypeByName(tstr); ty == nil {
 			ec.fail("cast: %v", err)
 		}
-		return fc.fromTerm(ec.scalar(v, x), tv.Type)
+		return fc.fromTerm(ec.scalar(v, x), ty)
 	case "implements":
 		// implements(x, "Iface"): x is non-nil and its dynamic type implements the named interface
 		v := ec.scalar(ec.eval(x.Args[0]), x)
@@ -1031,6 +1063,27 @@ var _ = fmt.Sprintf
 // fieldLocations expands assigns fields(x) into one location per field of the struct x points to.
 func (ec *evalCtx) fieldLocations(e spec.Expr) (keys []string, ref *smt.Term, sorts []smt.Sort, ok bool) {
 	c, isCall := e.(*spec.Call)
+	if isCall && c.Fun == "target" && len(c.Args) == 1 {
+		// target(x): every field of the object x refers to, whatever its dynamic type
+		// (the target of a decoder: json.Unmarshal(data, x))
+		ref := ec.scalar(ec.eval(c.Args[0]), e)
+		if bi, ok := ec.fc.boxes[ref.String()]; ok && bi.v.Conv && bi.v.T != nil {
+			// a pointer converted to another named type before boxing: the object is the pointer's
+			ref = bi.v.T
+		}
+		for _, k := range smt.SortedKeys(ec.fc.heapSorts) {
+			if strings.HasPrefix(k, "ghost:") || strings.HasPrefix(k, "map:") || strings.HasPrefix(k, "iter:") || k == "elems" || k == "elemsS" {
+				continue
+			}
+			_, vs, isArr := smt.ArrParts(ec.fc.heapSorts[k])
+			if !isArr {
+				continue
+			}
+			keys = append(keys, k)
+			sorts = append(sorts, vs)
+		}
+		return keys, ref, sorts, true
+	}
 	if !isCall || c.Fun != "fields" || len(c.Args) != 1 {
 		return nil, nil, nil, false
 	}
